@@ -793,6 +793,83 @@ class Inliner:
 
         fd.body = stmt_inline(fd.body)
         fd.body = gen_inline(fd.body)
+        class CompGen(ast.NodeTransformer):
+            """`(E(x) for x in self._gen())` with _gen a new private generator helper that is nothing but nested for-loops (and ifs) around one `yield v`:
+            the comprehension with the helper's loops as its own generators and x written as v"""
+            def _conv(self, n):
+                self.generic_visit(n)
+                if len(n.generators) != 1 or n.generators[0].is_async or not isinstance(n.generators[0].target, ast.Name):
+                    return n
+                g0 = n.generators[0]
+                if not isinstance(g0.iter, ast.Call):
+                    return n
+                r = resolve(g0.iter)
+                if not r:
+                    return n
+                h, recv = r
+                if h.other_decorators or any(isinstance(x, ast.Return) for x in _walk_no_defs(h.body)):
+                    return n
+                env = me._bind(h, g0.iter, recv)
+                if env is None:
+                    return n
+                gens = []
+                cur = [b for b in h.body if not (isinstance(b, ast.Expr) and isinstance(b.value, ast.Constant))]
+                val = None
+                while True:
+                    if len(cur) != 1:
+                        return n
+                    st = cur[0]
+                    if isinstance(st, ast.For) and not st.orelse:
+                        gens.append(ast.comprehension(target=st.target, iter=st.iter, ifs=[], is_async=0))
+                        cur = st.body
+                    elif isinstance(st, ast.If) and not st.orelse and gens:
+                        gens[-1].ifs.append(st.test)
+                        cur = st.body
+                    elif isinstance(st, ast.Expr) and isinstance(st.value, ast.Yield) and st.value.value is not None and gens:
+                        val = st.value.value
+                        break
+                    elif isinstance(st, ast.Expr) and isinstance(st.value, ast.YieldFrom):
+                        # `yield from X` is `for y_ in X: yield y_`
+                        gens.append(ast.comprehension(target=ast.Name(id='y_', ctx=ast.Store()), iter=st.value.value, ifs=[], is_async=0))
+                        val = ast.Name(id='y_', ctx=ast.Load())
+                        break
+                    else:
+                        return n
+                bound = {x.id for g in gens for x in ast.walk(g.target) if isinstance(x, ast.Name)}
+                used = {x.id for x in ast.walk(n) if isinstance(x, ast.Name)} | taken
+                if bound & used:
+                    ren = {}
+                    for b in sorted(bound & used):
+                        k = 1
+                        while '%s_%d' % (b, k) in used | bound:
+                            k += 1
+                        ren[b] = '%s_%d' % (b, k)
+                    gens = [_Rename(ren).visit(astcopy(g)) for g in gens]
+                    val = _Rename(ren).visit(astcopy(val))
+                gens = [_Subst(env).visit(astcopy(g)) for g in gens]
+                val = _Subst(env).visit(astcopy(val))
+                sub = {g0.target.id: val}
+                for fld in ('elt', 'key', 'value'):
+                    if hasattr(n, fld):
+                        setattr(n, fld, _Subst(sub).visit(getattr(n, fld)))
+                if g0.ifs:
+                    gens[-1].ifs.extend(_Subst(sub).visit(c) for c in g0.ifs)
+                n.generators = gens
+                ast.fix_missing_locations(n)
+                count[0] += 1
+                me.log.append('inlined generator %s into a comprehension of %s%s' % (h.name, (cls + '.') if cls else '', fd.name))
+                return n
+
+            visit_GeneratorExp = _conv
+            visit_ListComp = _conv
+            visit_SetComp = _conv
+
+            def visit_FunctionDef(self, n):
+                return n if n is not fd else self.generic_visit(n)
+
+            def visit_Lambda(self, n):
+                return n
+        CompGen().visit(fd)
         ExprInline().visit(fd)
         if local_helpers and count[0]:
             # drop the local helper definitions that are no longer referenced
@@ -840,9 +917,25 @@ class Inliner:
             U().visit(tree)
 
     def simplify(self):
+        def is_str_expr(e):
+            if isinstance(e, ast.Constant):
+                return isinstance(e.value, str)
+            if isinstance(e, ast.JoinedStr):
+                return True
+            if isinstance(e, ast.Call) and isinstance(e.func, ast.Name) and e.func.id == 'str' and len(e.args) <= 1 and not e.keywords:
+                return True
+            if isinstance(e, ast.Call) and isinstance(e.func, ast.Attribute) and e.func.attr in ('join', 'format') and is_str_expr(e.func.value):
+                return True
+            if isinstance(e, ast.BinOp) and isinstance(e.op, ast.Add):
+                return is_str_expr(e.left) or is_str_expr(e.right)
+            return False
+
         class S(ast.NodeTransformer):
             def visit_Call(self, n):
                 self.generic_visit(n)
+                # str(<an expression that is a str already>) is that expression
+                if isinstance(n.func, ast.Name) and n.func.id == 'str' and len(n.args) == 1 and not n.keywords and is_str_expr(n.args[0]):
+                    return n.args[0]
                 # map(f, xs) -> (f(x_) for x_ in xs);  getattr(o, 'name') -> o.name
                 if isinstance(n.func, ast.Name) and n.func.id == 'map' and len(n.args) == 2 and not n.keywords and isinstance(n.args[0], (ast.Name, ast.Attribute)):
                     return ast.copy_location(ast.GeneratorExp(
@@ -1023,6 +1116,7 @@ class Inliner:
                 _extend_as_loop(fd)
                 _get_or_create(fd)
                 _filter_then_loop(fd)
+                _search_loop_unroll(fd, self.log)
                 _fallback_split(fd, self.log)
                 _guard_return(fd, self.log)
                 _hoisted_locals(fd, self.log)
@@ -1124,6 +1218,11 @@ class Inliner:
         self.unbound_calls()
         self.join_form()
         self.simplify()
+        # the normal forms may have uncovered further helper calls (a helper bound to a local first: `h = __class__._h; ... h(x)`): one more round
+        n_before = len(self.log)
+        self.inline()
+        if len(self.log) != n_before:
+            self.simplify()
         for tree in self.trees.values():
             ast.fix_missing_locations(tree)
         return self.log
@@ -1530,6 +1629,64 @@ def _guard_return(fd, log=None):
             if log is not None:
                 log.append('# guard `if %s: return %s` of %s written as the nested form' % (ast.unparse(st.test), v, fd.name))
     fd.body = body
+
+
+def _search_loop_unroll(fd, log=None):
+    """`for a, b in <literal table of at most 8 rows>: m = f(a, ..); if m: break` followed by `if m: BODY` where BODY always returns or raises:
+    one attempt per row, each with its own copy of BODY in which the row's values are written for a and b -- the layout of the
+    repository's copy-pasted blocks (the table may be a local bound once to the literal and used for nothing else)."""
+    def rewrite(stmts):
+        i = 0
+        while i + 1 < len(stmts):
+            lp, G = stmts[i], stmts[i + 1]
+            table = None
+            if isinstance(lp, ast.For) and not lp.orelse and isinstance(lp.target, (ast.Tuple, ast.Name)) and isinstance(G, ast.If) and not G.orelse and \
+                    isinstance(G.test, ast.Name) and _all_paths_end_list(G.body) and len(lp.body) == 2 and isinstance(lp.body[0], ast.Assign) and \
+                    len(lp.body[0].targets) == 1 and isinstance(lp.body[0].targets[0], ast.Name) and lp.body[0].targets[0].id == G.test.id and \
+                    isinstance(lp.body[1], ast.If) and not lp.body[1].orelse and isinstance(lp.body[1].test, ast.Name) and lp.body[1].test.id == G.test.id and \
+                    len(lp.body[1].body) == 1 and isinstance(lp.body[1].body[0], ast.Break):
+                it = lp.iter
+                tdef = None
+                if isinstance(it, ast.Name):
+                    defs = [x for x in stmts[:i] if isinstance(x, ast.Assign) and len(x.targets) == 1 and isinstance(x.targets[0], ast.Name) and x.targets[0].id == it.id]
+                    uses = [n for n in _walk_no_defs(fd.body) if isinstance(n, ast.Name) and n.id == it.id]
+                    if len(defs) == 1 and len(uses) == 2 and isinstance(defs[0].value, (ast.Tuple, ast.List)):
+                        tdef, it = defs[0], defs[0].value
+                if isinstance(it, (ast.Tuple, ast.List)) and 1 <= len(it.elts) <= 8:
+                    names = [x.id for x in lp.target.elts] if isinstance(lp.target, ast.Tuple) and all(isinstance(x, ast.Name) for x in lp.target.elts) else \
+                        [lp.target.id] if isinstance(lp.target, ast.Name) else None
+                    rows = []
+                    for r in it.elts:
+                        if isinstance(lp.target, ast.Tuple):
+                            if not (isinstance(r, (ast.Tuple, ast.List)) and names and len(r.elts) == len(names)):
+                                rows = None
+                                break
+                            rows.append(dict(zip(names, r.elts)))
+                        else:
+                            rows.append({names[0]: r} if names else None)
+                    bound = set(_stores(G.body)) | set(_stores([lp.body[0]]))
+                    if rows and names and not (set(names) & bound):
+                        table = rows
+            if table is not None:
+                new = []
+                for env in table:
+                    new.append(_Subst(env).visit(astcopy(lp.body[0])))
+                    new.append(ast.copy_location(ast.If(test=astcopy(G.test), body=[_Subst(env).visit(astcopy(b)) for b in G.body], orelse=[]), G))
+                for n in new:
+                    ast.fix_missing_locations(n)
+                stmts[i:i + 2] = new
+                if tdef is not None and tdef in stmts:
+                    stmts.remove(tdef)
+                if log is not None:
+                    log.append('# search loop over %d rows in %s written as one block per row' % (len(table), fd.name))
+                i = 0
+                continue
+            for fld in ('body', 'orelse', 'finalbody'):
+                L = getattr(lp, fld, None)
+                if isinstance(L, list) and L and isinstance(L[0], ast.stmt) and not isinstance(lp, (ast.FunctionDef, ast.ClassDef)):
+                    rewrite(L)
+            i += 1
+    rewrite(fd.body)
 
 
 def _fallback_split(fd, log=None):
